@@ -23,6 +23,19 @@ def _lib_error_cls():
     return VerifLibError
 
 
+class RaisingMarker:
+    """attribute-based object whose attribute `d` is a property raising KeyError"""
+    def __init__(self, **kw):
+        self.__dict__.update(kw)
+
+    @property
+    def d(self):
+        raise KeyError("d")
+
+    def __repr__(self):
+        return "<RaisingMarker %s>" % self.__dict__.get("_id")
+
+
 class Marker:
     """object-with-attributes flavour of an object value"""
     def __init__(self, **kw):
@@ -68,6 +81,8 @@ class World:
             way = self.types.get(tn, {}).get("way") or "key"
             if way == "key":
                 return {"_typename": tn, "_id": raw["id"], "d": raw["d"]}
+            if raw["d"] == "<raises>":
+                return RaisingMarker(_typename=tn, _id=raw["id"])
             if way == "attr":
                 return Marker(_typename=tn, _id=raw["id"], d=raw["d"])
             o = _class_named(tn)()
